@@ -226,7 +226,9 @@ pub fn cases(tier: Tier) -> Vec<Case> {
 
 pub fn run(tier: Tier, _part: bool) -> i32 {
     let mut rep = Report::new("C15", tier, "exploration");
-    let cs = cases(tier);
+    // cheap check: both tiers run the thorough case list
+    let cs = cases(Tier::Thorough);
+    rep.set("tiers", json!("the quick tier runs the thorough tier's cases as well (the whole check takes a few seconds)"));
     let mut n = 0u64;
     let mut outcomes: HashSet<String> = HashSet::new();
     let mut fails = Vec::new();
